@@ -112,7 +112,7 @@ def build(config, tier):
                         e = "%ssi * a[%d] + %s" % ("-" if kk[0] == "-" else "", "xyz".index(kk[-1]), e)
                     ent.append(e)
             exp = embed(kind, ent)
-            body = mode + " let ang: %s = vk::any(); let a = sp::lat3(1); let axis = <%s>::from_array(sp::f%dx3(a)); let (s, c) = crate::uf::sin_cos_f%d(ang); let (si, ci) = (s as i64, c as i64);\n    let m = <%s>::from_axis_angle(axis, ang).to_cols_array();\n    check!(%s, \"Rodrigues formula exact\");" % (
+            body = mode + " let ang: %s = vk::any(); let a = sp::lat3(1); let axis = <%s>::from_array(sp::f%dx3(a)); let (s, c) = crate::uf::sin_cos_f%d(ang); let (si, ci) = (s as i16, c as i16);\n    let m = <%s>::from_axis_angle(axis, ang).to_cols_array();\n    check!(%s, \"Rodrigues formula exact\");" % (
                 t, V3, w, w, T, " && ".join("sp::eqi%d(m[%d], %s)" % (w, i, e) for i, e in enumerate(exp)))
             obs.append(Ob("%s_%s_axis_angle" % (pre0, T.lower()), PROP, body, fn="%s::from_axis_angle" % T, kind="lemma", solver="cadical", stubs=["sse", "uf_sin_cos%d" % w], cls="lattice",
                           tier="quick" if q else "thorough",
